@@ -377,6 +377,13 @@ pub fn run_line(line: &str) -> String {
             if t == "K" {
                 return Some(format!("K:{}", dec.get_calculated_checksum().map(|c| c as i64).unwrap_or(-1)));
             }
+            if t == "V" {
+                // the entropy tables held in the scratch space (hook): 4 x 6 numbers
+                return Some(match dec.verif_scratch_summary() {
+                    Some(t) => format!("V:{}", t.iter().map(|r| r.iter().map(|x| x.to_string()).collect::<Vec<_>>().join(",")).collect::<Vec<_>>().join(";")),
+                    None => "V:none".to_string(),
+                });
+            }
             Some(format!("?{}", t))
         }));
         match r {
